@@ -1,12 +1,15 @@
 #!/bin/bash
 # Re-runs the registered quick check(s) against every seeded change in seeded/, each in a scratch worktree of /repo's
 # HEAD outside /repo and /verif (so that it can run beside other checks); prints one line per change.
-# usage: ./seeded_all.sh [tier]
+# usage: [LANE=i LANES=n] ./seeded_all.sh [tier]     (several lanes may run side by side, each takes every n-th change)
 set -u
 cd "$(dirname "$0")"
 TIER=${1:-quick}
-WT=/tmp/verif-seedall-wt
+LANE=${LANE:-0}; LANES=${LANES:-1}
+WT=/tmp/verif-seedall-wt$LANE
+k=-1
 for d in $PWD/seeded/*/; do
+  k=$((k+1)); [ $((k % LANES)) = $LANE ] || continue
   id=$(basename $d)
   by=$(python3 -c "import json;print(json.load(open('$d/meta.json')).get('detected_by','') or json.load(open('$d/meta.json'))['property'])")
   patch=$d/patch.diff; [ -f $d/patch-ported-to-current-tree.diff ] && patch=$d/patch-ported-to-current-tree.diff
@@ -19,11 +22,11 @@ for d in $PWD/seeded/*/; do
   line="$id:"
   for p in $(echo $by | tr ',/' '  '); do
     case $p in C[0-9][0-9]) ;; *) continue;; esac
-    out=$(VERIF_REPO=$WT VERIF_OUT=/tmp/verif-seedall-out ./check $p $TIER 2>&1); rc=$?
+    out=$(VERIF_REPO=$WT VERIF_OUT=/tmp/verif-seedall-out$LANE ./check $p $TIER 2>&1); rc=$?
     cls=$(echo "$out" | grep -m1 '^  class=' | sed 's/ scenario.*//;s/^ *//')
     line="$line $p rc=$rc $cls;"
   done
   echo "$line"
   git -C /repo worktree remove --force $WT
 done
-git -C /repo worktree prune; rm -rf /tmp/verif-seedall-out
+git -C /repo worktree prune; rm -rf /tmp/verif-seedall-out$LANE
